@@ -104,8 +104,8 @@ defaults { egress {
 				out = append(out, fmt.Sprintf("%s: publish %d", route, resp.Status))
 				continue
 			}
-			res := "unsettled within 3s"
-			for w := 0; w < 600; w++ {
+			res := "unsettled within 15s"
+			for w := 0; w < 3000; w++ {
 				mu.Lock()
 				n := hits[id]
 				mu.Unlock()
